@@ -121,7 +121,10 @@ func (r *runner) run(ctx context.Context, isStream bool, input any, opts ...Opti
 	}
 
 	// Initialize channel and task managers.
-	cm := r.initChannelManager(isStream)
+	cm, err := r.initChannelManager(isStream)
+	if err != nil {
+		return nil, newGraphRunError(err)
+	}
 	tm := r.initTaskManager(runWrapper, opts...)
 	maxSteps := r.options.maxRunSteps
 
@@ -767,7 +770,7 @@ func (r *runner) initTaskManager(runWrapper runnableCallWrapper, opts ...Option)
 	}
 }
 
-func (r *runner) initChannelManager(isStream bool) *channelManager {
+func (r *runner) initChannelManager(isStream bool) (*channelManager, error) {
 	builder := r.chanBuilder
 	if builder == nil {
 		builder = pregelChannelBuilder
@@ -795,7 +798,7 @@ func (r *runner) initChannelManager(isStream bool) *channelManager {
 		}
 	}
 
-	return &channelManager{
+	cm := &channelManager{
 		isStream:            isStream,
 		channels:            chs,
 		successors:          r.successors,
@@ -805,6 +808,24 @@ func (r *runner) initChannelManager(isStream bool) *channelManager {
 		edgeHandlerManager:    r.edgeHandlerManager,
 		preNodeHandlerManager: r.preNodeHandlerManager,
 	}
+
+	if r.dag {
+		// A node that no edge or branch leads to can never be triggered. Its channel has no
+		// predecessor to wait for, so it would be reported ready in every step and the node would
+		// run again and again: skip it up front and propagate the skip to its successors, exactly
+		// like a branch target that was not selected.
+		var unreachable []string
+		for key := range r.chanSubscribeTo {
+			if len(r.controlPredecessors[key]) == 0 && len(r.dataPredecessors[key]) == 0 {
+				unreachable = append(unreachable, key)
+			}
+		}
+		if err := cm.reportBranch(START, unreachable); err != nil {
+			return nil, err
+		}
+	}
+
+	return cm, nil
 }
 
 func (r *runner) toComposableRunnable() *composableRunnable {
